@@ -168,6 +168,19 @@ CHECKS = {
         note="exploration: memory safety is observed (canaries, walk, GC, checkptr), not proved; encoding/json defines the result inside the addressed set.",
         technique="TLA+ byte-map model of decoder stores (with a named deviation) checked by TLC; TLC-emitted layouts realised with canaries, checkptr build and GC sweeps",
         engine="MemLayout", design="8/C07"),
+    "C08": dict(
+        level="model_checking",
+        text="EncVM.tla models the interpreter's frame discipline (frames at base + declared extent, slot array grown for the callee, "
+             "return to the caller's base); TLC proves for all interleavings of loads, stores, calls and returns that under assumption A "
+             "(slots used < declared extent) no load observes a slot written by a returned frame, accesses stay inside the array and "
+             "frames are disjoint, and finds the clobber under the deviation ExtentTooSmall. Binding: hooks in load/store/loadNPtr of "
+             "the four interpreters record every slot access while 90 recursive / interface-bearing shapes and their holders are encoded "
+             "at depths up to 30 (quick) / 2000 (thorough) through four reach modes and four interpreters with GC-forcing marshalers; TLC "
+             "validates the traces against EncVMTrace.tla, outputs are compared with encoding/json, eight kinds of cycles must error.",
+        note="trusted: TLC; frame boundaries are inferred from the frame base of each recorded access; encoding/json for the expected document. "
+             "Hooks: internal/encoder/vm*/util.go and context.go (build tag verif).",
+        technique="TLA+ frame-discipline spec model-checked by TLC (with a named deviation); TLC trace validation of recorded scratch-slot accesses; output differential and cycle checks",
+        engine="EncVM", design="8/C08"),
     "C09": dict(
         level="model_checking",
         text="StreamDecoder.tla models the refillable window (read with optional doubling, consume, in-place unescape, reset) over "
@@ -249,9 +262,11 @@ def main():
 
 
 NA = {}
-HOOK_COMMITS = ["cb16685"]
-FIX_COMMITS = ["3ba2124", "35e540e", "5d9c0a9", "182cdbb", "c177d40", "4cc9b5c", "e04537c", "f4cd737", "4b54f48", "54b79dc"]
+HOOK_COMMITS = ["cb16685", "7053e9c"]
+FIX_COMMITS = ["3ba2124", "35e540e", "5d9c0a9", "182cdbb", "c177d40", "4cc9b5c", "e04537c", "f4cd737", "4b54f48", "54b79dc", "663fc64"]
 ENGINES = [
+    dict(name="EncVM", path="specs/EncVM.tla", serves_properties=["C08"],
+         kind_free_text="TLA+ model of the encoder VM's scratch-slot frames (EncVM.tla, EncVMRules.tla) and trace specification EncVMTrace.tla"),
     dict(name="MemLayout", path="specs/MemLayout.tla", serves_properties=["C07"],
          kind_free_text="TLA+ byte-map model of destination layouts and decoder stores; exhaustive layout x document enumeration and export"),
     dict(name="CallHistory", path="specs/CallHistory.tla", serves_properties=["C11", "C12"],
